@@ -31,4 +31,5 @@ def run(run):
     sc += "Reset\nRandom %d %d\n" % (run.seed, 600000 if run.thorough() else 60000)
     tr = exec_script(run, exe, [], sc, run.path("walk.ndjson"), "walks", timeout=600)
     check_trace(run, "walks", "TraceRotenc", "TraceRotenc.cfg", tr, timeout=1500)
+    count_event_cases(run, tr)
     sample_trace(run, tr, 12)
